@@ -424,6 +424,14 @@ fn validate(ctx: &Context<impl Channel>) -> Result<(), Error> {
         ..
     } = ctx;
     circ.validate()?;
+    // The protocol indexes the input shares by instruction position, so all input instructions
+    // must come first.
+    let num_inputs: usize = circ.input_regs.iter().sum();
+    for (w, inst) in circ.insts.iter().enumerate() {
+        if matches!(inst.op, Op::Input(_)) && w >= num_inputs {
+            return Err(CircuitError::InvalidInput(w, *inst).into());
+        }
+    }
     let Some(expected_inputs) = circ.input_regs.get(p_own) else {
         return Err(Error::PartyDoesNotExist);
     };
